@@ -1381,6 +1381,13 @@ mod tests {
     }
 }
 
+#[cfg(feature = "verif-hooks")]
+impl Recv {
+    pub(super) fn verif_buffered(&self) -> usize {
+        self.buffer.verif_len()
+    }
+}
+
 // ===== impl Open =====
 
 impl Open {
